@@ -3257,16 +3257,20 @@ RESUME_VALIDATE_CERTS:
     if (rc < 0 || ssl->err != SSL_ALERT_NONE)
     {
         psTraceInfo("WARNING: cert did not pass internal validation test\n");
+        /*  ssl->err should have been set correctly above but catch
+            any missed cases with the generic BAD_CERTIFICATE alert:
+            matrixValidateCertsExt can fail with a return code that is
+            not mirrored in any authStatus. This must happen before the
+            user callback is consulted: a callback that is shown
+            SSL_ALERT_NONE has no way to tell that validation failed. */
+        if (ssl->err == SSL_ALERT_NONE)
+        {
+            ssl->err = SSL_ALERT_BAD_CERTIFICATE;
+        }
         /*      Cert auth failed.  If there is no user callback issue fatal alert
             because there will be no intervention to give it a second look. */
         if (ssl->sec.validateCert == NULL)
         {
-            /*  ssl->err should have been set correctly above but catch
-                any missed cases with the generic BAD_CERTIFICATE alert */
-            if (ssl->err == SSL_ALERT_NONE)
-            {
-                ssl->err = SSL_ALERT_BAD_CERTIFICATE;
-            }
             return MATRIXSSL_ERROR;
         }
     }
